@@ -76,6 +76,35 @@ def long_after_batch(rng, idx):
     return "long-after-batch#%d" % idx, s
 
 
+def short_after_stream(rng, idx):
+    """Very short utterances (less than a handful of frames, down to less than one analysis window) on a decoder that
+    has streamed an utterance before, in one call and in small pieces."""
+    cfg = {"hmm": os.path.join(sut.REPO, "model", "en-us"), "dict": os.path.join(sut.REPO, "tests", "data", "turtle.dic"),
+           "loglevel": "FATAL"}
+    s = list(decmatrix.audio_defs()) + ["init " + decmatrix.hx(json.dumps(cfg)),
+         "jsgf " + decmatrix.hx("#JSGF V1.0;\ngrammar g;\npublic <s> = (go | forward | ten | meters | stop)+;\n")]
+    s += ["start", "feed %s 0 -1 i16 0 0" % rng.choice(["head", "mid", "gf"]), "end", "result u0"]
+    for u in range(1, 9):
+        n = rng.choice([0, 1, 100, 300, 409, 410, 450, 570, 600, 730, 800, 889, 890, 1050, 1600])
+        enc = rng.choice(["i16", "i16", "f32"])
+        s.append("start")
+        if rng.random() < 0.5:
+            s.append("feed gf 8000 %d %s %d 0" % (n, enc, rng.choice([0, 0, 1])))
+        else:
+            off = 0
+            while off < n:
+                k = min(n - off, rng.choice([100, 37, 160, 1]))
+                s.append("feed gf %d %d %s 0 0" % (8000 + off, k, enc))
+                off += k
+        if rng.random() < 0.3:
+            s.append("result p%d" % u)
+        s += ["end", "result u%d" % u]
+        if rng.random() < 0.25:
+            s += ["start", "feed tail 0 -1 i16 0 0", "end", "result v%d" % u]
+    s.append("free")
+    return "short-after-stream#%d" % idx, s
+
+
 def run_which(ctx, which):
     rep = ctx.report
     quick = ctx.tier == "quick"
@@ -93,6 +122,12 @@ def run_which(ctx, which):
         # every history table the abstract search reaches, written into a real search object: the real find_exit /
         # backtrace / segment iterator on each (a seeded sample in the quick tier)
         cases += [long_after_batch(rng, n + 50 + i) for i in range(3 if quick else 40)]
+        cases += [short_after_stream(rng, n + 70 + i) for i in range(3 if quick else 40)]
+        # alignments and alignment-level JSON asked for in mid-utterance (they rewind the acoustic model and run a second
+        # pass): the frames that follow must still all be searched
+        for i in range(8 if quick else 100):
+            cases.append(decmatrix.make_case(rng, ctx, n + 80 + i, {"result", "partial", "alignment", "json"},
+                                             {"chunking": rng.choice(["small", "small", "big"]), "audio": rng.choice(["gf", "gf", "cut", "silgf"])}))
         for k, g in enumerate(decmatrix.variant_grammars()):
             cases.append(decmatrix.make_case(rng, ctx, n + 20 + k, {"result", "partial"},
                                              {"grammar": g, "audio": "gf", "no_synth": True}))
